@@ -42,6 +42,15 @@ CHECKS = {
  "C08": ("fault_enumeration", "runtime monitoring of child processes (race build => checkptr) hosting the real listeners and clients: structure-aware fault enumeration per receiving loop, every input logged before sending, liveness by sentinel request, RSS watchdog, goroutine census of the receive loops",
          "Enumerates malformed-input classes x positions for NTP/NTS, SCION (headers, paths, options, SCMP), CSPTP and NTS-KE record streams plus hostile responses to the real clients; the oracle is process survival, an answered sentinel after every batch and an unchanged number of receive-loop goroutines.",
          "loopback; hang = sentinel unanswered 3 x 5 s with the child alive; absence of crashes only for generated inputs", "3/C08"),
+ "C10": ("exploration", "runtime oracle over every single-bit and single-field mutation of encoded NTS requests, responses and cookies produced by the project's own encoder; calls under recover with a watchdog, hang-prone classes probed in a child process",
+         "Completeness on every generated packet, soundness on every bit of the authenticated/nonce/ciphertext regions (framing bytes not asserted), key/direction/id mix-ups, cookie sealing; panics and hangs are reported with their own signatures.",
+         "byte classification by the harness's knowledge of the layout it asked the encoder for; miscreant AES-SIV as trusted primitive", "3/C10"),
+ "C14": ("exploration", "runtime round-trip oracles on the exported codecs (exhaustive 8/16-bit fields, boundary-dense wider fields, random values and byte strings) and NTS-KE streams delivered through every single cut point, one-byte/half readers, multi-cut and small bufio readers",
+         "decode(encode(v)) = v, encode(decode(b)) = b for headers, extension-field kinds preserved and 4-byte aligned, segmentation-independence of ReadData at every cut point of generated server messages.",
+         "iotest/bufio readers stand in for transport segmentation (same read boundaries as TLS records); request sizes kept within the 1024-byte NTS packet limit", "3/C14"),
+ "C20": ("fault_enumeration", "runtime monitor of the real Fetcher (and IP client) against a scripted TLS NTS-KE server: enumerated record-stream faults (record x position, truncation at every byte, segmentation at every byte, ALPN offers) and sequences of failed and successful exchanges; keys compared with the server side's exporter values",
+         "Every fault class is enumerated over every position of a conformant message; verdict per stream derived from the statement (must fail / must succeed / either); state after failures observed through connection counts and tagged cookies.",
+         "IP-literal server records only; TLS library and exporter trusted; warning records and non-canonical record lengths are judged only for crash-freedom and, if accepted, for the rest of the stream", "3/C20"),
 }
 
 NOT_APPLICABLE = {
